@@ -42,6 +42,7 @@ const ParsingInfo& RSModel::GetParse(const EntityUID entity) const {
 EntityUID RSModel::Emplace(const CstType type, const std::string& definition) {
   const auto result = core.Emplace(type, definition);
   AfterInsert(result);
+  ResetDependants(result); // Note: constituents mentioning the new name are typed by it now
   NotifyModification();
   return result;
 }
@@ -49,6 +50,7 @@ EntityUID RSModel::Emplace(const CstType type, const std::string& definition) {
 EntityUID RSModel::InsertCopy(const EntityUID target, const RSCore& source) {
   const auto result = core.InsertCopy(target, source);
   AfterInsert(result);
+  ResetDependants(result); // Note: constituents mentioning the new name are typed by it now
   NotifyModification();
   return result;
 }
@@ -56,6 +58,7 @@ EntityUID RSModel::InsertCopy(const EntityUID target, const RSCore& source) {
 EntityUID RSModel::InsertCopy(const ConceptRecord& cst) {
   const auto result = core.InsertCopy(cst);
   AfterInsert(result);
+  ResetDependants(result); // Note: constituents mentioning the new name are typed by it now
   NotifyModification();
   return result;
 }
@@ -64,6 +67,9 @@ VectorOfEntities RSModel::InsertCopy(const std::vector<ConceptRecord>& input) {
   auto result = core.InsertCopy(input);
   for (const auto uid : result) {
     AfterInsert(uid);
+  }
+  for (const auto uid : result) {
+    ResetDependants(uid); // Note: constituents mentioning the new names are typed by them now
   }
   NotifyModification();
   return result;
@@ -74,6 +80,9 @@ VectorOfEntities RSModel::InsertCopy(const VectorOfEntities& input, const RSCore
   for (const auto uid : result) {
     AfterInsert(uid);
   }
+  for (const auto uid : result) {
+    ResetDependants(uid); // Note: constituents mentioning the new names are typed by them now
+  }
   NotifyModification();
   return result;
 }
@@ -83,11 +92,38 @@ bool RSModel::MoveBefore(const EntityUID what, const ListIterator iWhere) {
 }
 
 bool RSModel::SetAliasFor(const EntityUID target, const std::string& newName, const bool substitue) {
-  return NotifyAndReturn(core.SetAliasFor(target, newName, substitue));
+  if (!core.Contains(target)) {
+    return false;
+  }
+  auto mentions = core.RSLang().Graph().ExpandOutputs({ target }); // Note: mentions of the old name are found before they are lost
+  if (!core.SetAliasFor(target, newName, substitue)) {
+    return false;
+  }
+  for (const auto uid : core.RSLang().Graph().ExpandOutputs({ target })) {
+    mentions.emplace(uid);
+  }
+  for (const auto uid : mentions) {
+    // Note: a constituent that mentions the old or the new name can lose or gain its typification
+    if (const auto type = core.GetRS(uid).type; uid == target || IsBaseSet(type)) {
+      continue;
+    } else if (type == CstType::structured) {
+      Values().PruneStructure(uid);
+    } else if (!substitue) {
+      Calculations().ResetFor(uid);
+      Values().ResetFor(uid);
+    }
+  }
+  NotifyModification();
+  return true;
 }
 
 void RSModel::ResetAliases() {
   core.ResetAliases();
+  for (const auto uid : core.List()) {
+    if (core.GetRS(uid).type == CstType::structured) {
+      Values().PruneStructure(uid); // Note: a dangling mention can meet a name that was freed for it
+    }
+  }
   NotifyModification();
 }
 
